@@ -64,6 +64,15 @@ CLAIMED = {
             "before writing, never touching the status; that the runner only ever flips OK->UNHEALTHY, and only for a "
             "failed consumer task.",
             "Sockets, create_server, many connections and fragmentation are outside the subset (assumed asyncio behaviour)."),
+    "C17": ("deductive verification of _middleware_wrapper.__call__/call_set_context (ghost signal trace, conditional "
+            "effects), the subscriber wrapper (quantified postcondition over the kwargs map), emitter setter/getter per "
+            "wrapped class, Connection.__post_init__, _Processor.__init__ (frame)",
+            "Proof that a wrapped call emits before(name, args-by-name), the call with the inside flag set in a child "
+            "context, after(same + result) - or only the call when nested / no emitter - and nothing after an "
+            "exception; that a subscriber gets exactly the signal arguments it declares and its Exceptions are "
+            "swallowed; that emitters are written only on the connection's own objects (FAILS for _Processor: F17).",
+            "emit_signal/gather, asyncify, _WrappedABC.__new__ (one wrapper per instance) by assumed contracts; timing "
+            "of slow subscribers not decided."),
 }
 NOT_APPLICABLE_REASON = "check not built yet (work in progress; see DESIGN.md section 5 for the planned contracts)"
 
